@@ -38,10 +38,16 @@ Definition middle {A} (l : list A) : list A := removelast (tl l).
 Definition is_ref (d : ty) : bool := match d with TRef _ | TRRef _ => true | _ => false end.
 Definition is_fn (d : ty) : bool := match d with TFn _ _ _ => true | _ => false end.
 
-Definition set_const (d : ty) : option ty :=
-  match d with TPtr x _ v => Some (TPtr x true v) | TBase b _ v => Some (TBase b true v) | _ => None end.
-Definition set_volatile (d : ty) : option ty :=
-  match d with TPtr x c _ => Some (TPtr x c true) | TBase b c _ => Some (TBase b c true) | _ => None end.
+(* dtype.const = True / dtype.volatile = True: on a Pointer the object is
+   fresh; on the bare Type it is the base type object shared by all declarators
+   of the statement (the implementation mutates it in place).  After
+   _parse_type has consumed the qualifiers around the type name a cv-qualifier
+   cannot reach the loop on a bare Type in well-formed input, so that case is
+   outside the model (code 4). *)
+Definition set_const (d : ty) : dres ty :=
+  match d with TPtr x _ v => DOk (TPtr x true v) | TBase _ _ _ => DErr 4 | _ => DErr 1 end.
+Definition set_volatile (d : ty) : dres ty :=
+  match d with TPtr x c _ => DOk (TPtr x c true) | TBase _ _ _ => DErr 4 | _ => DErr 1 end.
 
 Definition lift {A} (r : res (list tk * list tk)) (k : list tk -> list tk -> dres A) : dres A :=
   match r with
@@ -156,8 +162,8 @@ Fixpoint cvptr (fuel : nat) (d : ty) (toks : list tk) {struct fuel} : dres (ty *
       match toks with
       | t :: r =>
           if is STAR t then (if is_ref d then DErr 1 else cvptr f (TPtr d false false) r)
-          else if is T_const t then match set_const d with Some d' => cvptr f d' r | None => DErr 1 end
-          else if is T_volatile t then match set_volatile d with Some d' => cvptr f d' r | None => DErr 1 end
+          else if is T_const t then match set_const d with DOk d' => cvptr f d' r | DErr e => DErr e end
+          else if is T_volatile t then match set_volatile d with DOk d' => cvptr f d' r | DErr e => DErr e end
           else if is LP t then
             match r with
             | t2 :: _ =>
@@ -247,32 +253,65 @@ with param (fuel : nat) (toks : list tk) {struct fuel} : dres ((ty * option N) *
       end
   end.
 
-(* a variable declaration up to (not including) the ';' or ',' that ends its declarator *)
+(* the declarator of a variable after its base type: up to (not including)
+   the ';' or ',' that ends it *)
+Definition var_tail (fuel : nat) (b : ty) (r : list tk) : dres (N * ty * list tk) :=
+  match cvptr fuel b r with
+  | DErr e => DErr e
+  | DOk (d, r1) =>
+      if is_fn d then DErr 3
+      else
+        match r1 with
+        | t :: r2 =>
+            if is T_NAME t then
+              match r2 with
+              | a :: r3 =>
+                  if is LB a then
+                    match arrtype fuel d a r3 with
+                    | DOk (d1, r4) => DOk (kval t, d1, r4)
+                    | DErr e => DErr e
+                    end
+                  else if is LP a then DErr 4          (* a function declaration: not a variable *)
+                  else DOk (kval t, d, r2)
+              | [] => DOk (kval t, d, r2)
+              end
+            else DErr 4
+        | [] => DErr 2
+        end
+  end.
+
 Definition parse_var (fuel : nat) (toks : list tk) : dres (N * ty * list tk) :=
   match parse_base toks with
   | DErr e => DErr e
-  | DOk (b, r) =>
-      match cvptr fuel b r with
+  | DOk (b, r) => var_tail fuel b r
+  end.
+
+(* _parse_declarations' loop for variables: one base type, then declarators
+   separated by ',' and closed by ';'; every declarator starts again from the
+   base type.  [n] bounds the number of declarators. *)
+Fixpoint decl_list (n : nat) (fuel : nat) (b : ty) (toks : list tk) : dres (list (N * ty) * list tk) :=
+  match n with
+  | O => DErr 9
+  | S n' =>
+      match var_tail fuel b toks with
       | DErr e => DErr e
-      | DOk (d, r1) =>
-          if is_fn d then DErr 3
-          else
-            match r1 with
-            | t :: r2 =>
-                if is T_NAME t then
-                  match r2 with
-                  | a :: r3 =>
-                      if is LB a then
-                        match arrtype fuel d a r3 with
-                        | DOk (d1, r4) => DOk (kval t, d1, r4)
-                        | DErr e => DErr e
-                        end
-                      else if is LP a then DErr 4          (* a function declaration: not a variable *)
-                      else DOk (kval t, d, r2)
-                  | [] => DOk (kval t, d, r2)
-                  end
-                else DErr 4
-            | [] => DErr 2
-            end
+      | DOk (nm, d, r) =>
+          match r with
+          | s :: r' =>
+              if is COMMA s then
+                match decl_list n' fuel b r' with
+                | DOk (l, r'') => DOk ((nm, d) :: l, r'')
+                | DErr e => DErr e
+                end
+              else if is SEMI s then DOk ([(nm, d)], r')
+              else DErr 1
+          | [] => DErr 2
+          end
       end
+  end.
+
+Definition parse_decls (n fuel : nat) (toks : list tk) : dres (list (N * ty) * list tk) :=
+  match parse_base toks with
+  | DErr e => DErr e
+  | DOk (b, r) => decl_list n fuel b r
   end.
